@@ -315,7 +315,30 @@ class RealWorld(object):
         out.append('now %d' % CLOCK.ticks())
         out.append(self.states_line())
         out.append(self.timers_line())
+        out.append(self.store_line())
         return out
+
+    def store_line(self):
+        """the factory's containers address by address, in container order (identifier / QoS / alarm set): the state the model's entry
+        list is supposed to mirror; compared with the driver's `store` line after every operation"""
+        f = self.factory
+        tables = (f.queuePublishTx, f.windowPublish, f.windowPubRelease, f.windowSubscribe, f.windowUnsubscribe, f.windowPubRx)
+        addrs = set()
+        for d in tables:
+            for a, c in d.items():
+                if len(c):
+                    addrs.add(a)
+        armed = lambda r: 1 if getattr(r, 'alarm', None) is not None else 0
+        parts = []
+        for a in sorted(addrs, key=lambda a: int(str(a)[1:]) if str(a)[1:].isdigit() else 0):
+            q = ','.join('%d/%d/%d' % (r.msgId or 0, r.qos, armed(r)) for r in f.queuePublishTx.get(a, ()))
+            pub = ','.join('%d/%d/%d' % (r.msgId or 0, r.qos, armed(r)) for r in f.windowPublish.get(a, {}).values())
+            rel = ','.join('%d/%d' % (k, armed(r)) for k, r in f.windowPubRelease.get(a, {}).items())
+            sub = ','.join('%d/%d' % (k, armed(r)) for k, r in f.windowSubscribe.get(a, {}).items())
+            uns = ','.join('%d/%d' % (k, armed(r)) for k, r in f.windowUnsubscribe.get(a, {}).items())
+            rx = ','.join(str(k) for k in f.windowPubRx.get(a, {}).keys())
+            parts.append('%s:q=%s;pub=%s;rel=%s;sub=%s;unsub=%s;rx=%s' % (a, q, pub, rel, sub, uns, rx))
+        return 'store ' + ' '.join(parts)
 
     def states_line(self):
         names = []
